@@ -21,10 +21,11 @@ LEAN_MODULES = ["NanoVerif.Props.C07"]
 NS = "NanoVerif.LSearch."
 OBLIGATIONS = [NS + t for t in [
     "nondescent_refused",
-    "success_state_is_eval", "success_state_is_last_answer", "backtrack_success_state_is_eval",
+    "success_state_is_last_answer", "success_state_is_eval", "backtrack_success_state_is_eval",
     "backtrack_success_armijo", "lemarechal_success_armijo_wolfe", "fletcher_success_armijo_strong_wolfe",
-    "success_step_positive", "evals_per_get_le",
-    "success_state_is_eval_partial_witness",
+    "generated_predicates_meaning",
+    "success_step_positive", "morethuente_success_step_positive_partial",
+    "evals_per_get_le", "evalsBound_default",
 ]]
 TRUSTED = [
     "Lean 4.33.0 kernel; Mathlib modules imported by Proofs/LSearch*.lean and Props/C07.lean (ordered fields, linarith, positivity)",
@@ -52,7 +53,11 @@ RULE = ("per op one call of lsearchk_t::get: method x interpolation x max_iterat
         "x0 in boxes of radius 1e-2..1e3 x direction (negative gradient, perturbed negative gradient, quasi-Newton-like SPD image, random "
         "explicit, non-descent: +gradient, zero, orthogonal); an op is non-trivial when the direction is meant to be a descent direction "
         "(the search runs); distinct by op text")
-FLAVOUR = {"quick": "plain", "thorough": "asan"}
+# Both tiers run the release flavour: the sanitizer flavour keeps the library's `assert`s, and `lsearchk_t::update` evaluates
+# `has_armijo` for its log line, whose consistency assert computes inf - inf = NaN for a non-finite trial point (and
+# `has_approx_wolfe` asserts c1 < 0.5) and aborts the process, whereas the release build - the subject of C07 - treats such
+# trial points as invalid states. The thorough tier runs 40x more cases instead.
+FLAVOUR = {"quick": "plain", "thorough": "plain"}
 RTOL = 1e-12
 HARNESS_TIMEOUT = 1500
 
@@ -174,8 +179,6 @@ def make_op(method, interp, maxit, c12, p, t0, fspec, x0, direction):
 
 
 def gen(rng, tier):
-    # vlib.Rng streams of consecutive seeds are shifted copies of each other (state = seed*gamma + c, step = +gamma);
-    # forking through one mixed output decorrelates them
     rng = rng.fork()
     ops = []
     cp = os.path.join(vlib.VERIF, "corpus", "C07", "ops.txt")
@@ -189,7 +192,7 @@ def gen(rng, tier):
                     x0 = [rng.uniform(-1, 1) for _ in range(n)]
                     for direction in ["neggrad", "posgrad"]:
                         ops.append(make_op(method, interp, 128, (1e-4, 0.1), DEFAULTS, t0, fspec, x0, direction))
-    count = 2600 if tier == "quick" else 40000
+    count = 8000 if tier == "quick" else 320000
     for _ in range(count):
         method = rng.choice(METHODS)
         interp = rng.choice(INTERPS)
@@ -323,6 +326,10 @@ def oracle(aug, res):
             why.append(f"neither Wolfe nor approximate Wolfe: f={f!r} f0={f0!r} g.d={dg!r} g0.d={dg0!r} eps_k={epsk!r}")
     if why:
         cls = "on-convex-quadratic" if m in ("morethuente", "cgdescent") else "advertised-condition"
+        if m == "cgdescent" and op.maxit > 10:
+            # the known finding (success from the 'bracketing failed' exit of interval_t::done when the budget runs out) is
+            # keyed without suffix and was only ever seen for max_iterations <= 10; anything else is a new violation
+            cls += "/max_iterations>10"
         return (f"[{m}-success-violates-{cls}] t={t!r} c1={c1!r} c2={c2!r} max_iterations={op.maxit} "
                 f"({r.n} evaluations): " + "; ".join(why))
     return None
